@@ -21,11 +21,17 @@ import (
 // observation = (wrong-untouched wrong-changing panics blocked)
 
 func genMut(r *Rng) Sx {
-	return L(r.Intn(2), r.Intn(3), []int{2, 4, 8}[r.Intn(3)], 200+r.Intn(800))
+	// fifth: extra stable routes on the service whose routes change (a long route list widens every window in which a
+	// reader holds a partial view of it)
+	return L(r.Intn(2), r.Intn(3), []int{2, 4, 8}[r.Intn(3)], 200+r.Intn(800), []int{0, 0, 64, 600}[r.Intn(4)])
 }
 
 func runMut(raw Sx) (Sx, Sx) {
 	router, entry, servers, iters := sxInt(sxNth(raw, 0)), sxInt(sxNth(raw, 1)), sxInt(sxNth(raw, 2)), sxInt(sxNth(raw, 3))
+	extra := 0
+	if len(sxList(raw)) > 4 {
+		extra = sxInt(sxNth(raw, 4))
+	}
 	c := restful.NewContainer()
 	if router == 1 {
 		c.Router(restful.RouterJSR311{})
@@ -54,6 +60,9 @@ func runMut(raw Sx) (Sx, Sx) {
 	wb.Path("/b")
 	wb.SetDynamicRoutes(true) // the premise of the property
 	wb.Route(wb.GET("/keep").To(say("BK")))
+	for i := 0; i < extra; i++ {
+		wb.Route(wb.GET("/s" + itoa(i)).To(say("S")))
+	}
 	c.Add(wb)
 	mkC := func() *restful.WebService {
 		wc := new(restful.WebService)
@@ -223,7 +232,7 @@ func runMut(raw Sx) (Sx, Sx) {
 			blocked, lastDump = 1, d
 		}
 	}
-	return L(Ls{}, router, entry, servers, iters), L(int(wrongStable), int(wrongChanging), int(panics), blocked)
+	return L(Ls{}, router, entry, servers, iters, extra), L(int(wrongStable), int(wrongChanging), int(panics), blocked)
 }
 
 var mutSeq int64
